@@ -20,9 +20,6 @@ pub(crate) const MAX_RAW_HEADERS_SIZE: usize = 1024;
 pub(crate) const MAX_HEADERS_NUM: usize = 32;
 /// How long a closing session waits for the pipe to pick up the upload chunk handed to it
 const UPLOAD_HANDOVER_TIMEOUT: Duration = Duration::from_secs(1);
-/// How long the orderly close of a session may take. What is left to write is a couple of
-/// messages at most, which any client that still reads takes well within this time
-const GRACEFUL_SHUTDOWN_TIMEOUT: Duration = Duration::from_secs(10);
 
 pub(crate) struct Http1Codec<IO> {
     state: State,
@@ -297,24 +294,19 @@ where
 
     async fn graceful_shutdown(&mut self) -> io::Result<()> {
         self.upload_finished.store(true, Ordering::Release);
-        let orderly_close = async {
+        // no limit here: a client that reads slowly, or pauses, gets the rest of its download.
+        // A session closed because the endpoint shuts down is bounded by its owner
+        // (`shutdown::close_within_bound`)
+        self.write_download_in_flight().await?;
+        if let Ok(chunk) = self.download_rx.try_recv() {
+            self.download_in_flight = Some(chunk);
             self.write_download_in_flight().await?;
-            if let Ok(chunk) = self.download_rx.try_recv() {
-                self.download_in_flight = Some(chunk);
-                self.write_download_in_flight().await?;
-            }
-            self.transport_stream.flush().await?;
-            // the pipe takes nothing from the upload channel while the peer does not read:
-            // such a peer must not keep the client connection open
-            let _ = tokio::time::timeout(UPLOAD_HANDOVER_TIMEOUT, self.upload_tx.reserve()).await;
-            self.transport_stream.shutdown().await
-        };
-        // a client that has stopped reading takes neither the rest of the download nor the
-        // closing alert: it must not keep the session, and a shutdown of the endpoint that
-        // waits for it, from finishing. The connection is closed when the codec is dropped
-        tokio::time::timeout(GRACEFUL_SHUTDOWN_TIMEOUT, orderly_close)
-            .await
-            .unwrap_or_else(|_| Err(io::Error::from(ErrorKind::TimedOut)))
+        }
+        self.transport_stream.flush().await?;
+        // the pipe takes nothing from the upload channel while the peer does not read:
+        // such a peer must not keep the client connection open
+        let _ = tokio::time::timeout(UPLOAD_HANDOVER_TIMEOUT, self.upload_tx.reserve()).await;
+        self.transport_stream.shutdown().await
     }
 
     fn protocol(&self) -> Protocol {
